@@ -584,9 +584,11 @@ def oracle_verdict(m, spec, res, T):
     child_bad = [c for c in res.children if not c['report_complete']]
     spawn_failed = 'spawn_fail' in res.fired
     lookalike = any(c['noise_header_before_report'] for c in res.children)
-    expected = T.anything_bad() or bool(child_bad) or spawn_failed
+    child_import = any(p_ != 0 for p_ in T.import_failures)
+    expected = T.anything_bad() or bool(child_bad) or spawn_failed or child_import
     reason = 'test/layer/import' if T.anything_bad() else (
-        'child-report-missing' if child_bad else ('spawn-failed' if spawn_failed else 'none'))
+        'child-report-missing' if child_bad else ('spawn-failed' if spawn_failed else (
+            'child-only-import-failure' if child_import else 'none')))
     if res.raised:
         viols.append(C.viol('C02/no-verdict/%s' % frames_sig(res.raised),
                             'run_internal raised instead of returning a verdict: %s: %s\n%s'
